@@ -211,20 +211,35 @@ def totalSizeOf (lim : Option Limit) : Int :=
 def clampBatch (lim : Option Limit) (batchSize : Int) : Int :=
   if lim.isSome ∧ totalSizeOf lim > 0 ∧ batchSize > totalSizeOf lim then totalSizeOf lim else batchSize
 
-/-- `FindInBatches(dest, batchSize, fc)` on a chain whose LIMIT clause state is `lim`, generic in the query. -/
-def findInBatchesQ (q : Int → Option Int → Option Nat → List Nat) (lim : Option Limit) (batchSize : Int)
-    (fuel : Nat) : BatchOut :=
-  batchLoopQ q (effOffsetOf lim) (totalSizeOf lim) fuel { batchSize := clampBatch lim batchSize } [] []
+/-- `limit.Limit != nil && *limit.Limit == 0`: the stored LIMIT is exactly 0 (what `Find` prints as `LIMIT 0`) -/
+def limitIsZero (lim : Option Limit) : Bool :=
+  match lim with
+  | some l => l.limit == some 0
+  | none => false
+
+/-- the preamble's early return `if limit.Limit != nil && totalSize == 0 { tx.AddError(queryDB.Find(dest).Error);
+    return tx }` (after `tx = tx.Offset(-1)`; `queryDB` is still the chain as the caller built it): ONE query carrying
+    the chain's own `LIMIT 0` and OFFSET, no call of `fc`, `tx.RowsAffected` left at 0. -/
+def zeroLimitOut (lim : Option Limit) : BatchOut :=
+  { queries := [{ limit := 0, offset := effOffsetOf lim, cursor := none }] }
+
+/-- `FindInBatches(dest, batchSize, fc)` on a chain whose LIMIT clause state is `lim`, generic in the query.
+    `zeroRet` = the early return for a stored LIMIT 0 is present in the tree (regenerated fact
+    `Gen.findInBatchesZeroLimitReturn`; absent in the tree with finding F7c, where a stored 0 reads as "no limit"). -/
+def findInBatchesQ (zeroRet : Bool) (q : Int → Option Int → Option Nat → List Nat) (lim : Option Limit)
+    (batchSize : Int) (fuel : Nat) : BatchOut :=
+  bif limitIsZero lim && zeroRet then zeroLimitOut lim
+  else batchLoopQ q (effOffsetOf lim) (totalSizeOf lim) fuel { batchSize := clampBatch lim batchSize } [] []
 
 /-- chain without WHERE / user ordering over the key list `rows` -/
-def findInBatches (rows : List Nat) (lim : Option Limit) (batchSize : Int) (fuel : Nat) : BatchOut :=
-  findInBatchesQ (fun l o g => findQ rows (some l) o g) lim batchSize fuel
+def findInBatches (zeroRet : Bool) (rows : List Nat) (lim : Option Limit) (batchSize : Int) (fuel : Nat) : BatchOut :=
+  findInBatchesQ zeroRet (fun l o g => findQ rows (some l) o g) lim batchSize fuel
 
 /-- chain with WHERE units `us` and user ordering `ord` over table `tbl`
     (`db.Order(pk)` of FindInBatches is appended AFTER the user's columns) -/
-def findInBatchesW (tbl : List Nat) (us : List WUnit) (ord : List OrdCol) (lim : Option Limit)
+def findInBatchesW (zeroRet : Bool) (tbl : List Nat) (us : List WUnit) (ord : List OrdCol) (lim : Option Limit)
     (batchSize : Int) (fuel : Nat) : BatchOut :=
-  findInBatchesQ (fun l o g => queryW tbl us (ord ++ [pkAsc]) (some l) o g) lim batchSize fuel
+  findInBatchesQ zeroRet (fun l o g => queryW tbl us (ord ++ [pkAsc]) (some l) o g) lim batchSize fuel
 
 /-- what a plain `Find` on the same chain returns (ORDER BY pk) -/
 def findAll (rows : List Nat) (lim : Option Limit) : List Nat :=
